@@ -310,7 +310,15 @@ func (g *gen20) cond(name string) (Criteria, string) {
 	if g.simple {
 		return g.simpleCond(name)
 	}
-	switch sv.Choice(name+".kind", 8) {
+	switch sv.Choice(name+".kind", 10) {
+	case 8: // an IN list that mixes literals with names (bound in the environment or not), literal first
+		e1, w1 := g.numLit(name + ".a")
+		return Cond{Field: "n", Operator: sql.IN, Operands: []ast.Expr{ast.List([]ast.Expr{e1, ast.Var("m", pos.Unknown), ast.Var("n", pos.Unknown)}, pos.Unknown)}},
+			"cond:" + g.fieldText("n") + ":IN:" + w1 + ";" + g.fieldText("m") + ";" + g.fieldText("n")
+	case 9: // ... and name first
+		e1, w1 := g.strLit(name + ".a")
+		return Cond{Field: "s", Operator: sql.IN, Operands: []ast.Expr{ast.List([]ast.Expr{ast.Var("s", pos.Unknown), e1}, pos.Unknown)}},
+			"cond:" + g.fieldText("s") + ":IN:" + g.fieldText("s") + ";" + w1
 	case 0:
 		op := []string{sql.EQ, sql.NE, sql.GT, sql.GE, sql.LT, sql.LE}[sv.Choice(name+".op", 6)]
 		e, w := g.numLit(name + ".n")
